@@ -66,7 +66,7 @@ def cases(rng, tier, X):
     # small scope, exhaustively: every frame sequence up to length 2 (thorough: 3) over the 23-symbol alphabet of frames.alphabet()
     out += F.small_scope(2 if tier == 'quick' else 3)
     # universal traffic (every frame type / sender / path / service / boundary value, 1..3 interfaces): this check's predicate on it
-    for k in range(60 if tier == 'quick' else 6000):
+    for k in range(150 if tier == 'quick' else 6000):
         out.append(('u%d' % k, F.universal(rng)))
     return out
 
